@@ -19,7 +19,7 @@ Not decided: the crash-point x outcome product (fault enumeration is a different
 import re
 
 from facts import short_name
-from kinds import (k1_callers, k1_constructors, comparisons, result_blocks, k2_site_guarded,
+from kinds import (rel, k1_callers, k1_constructors, comparisons, result_blocks, k2_site_guarded,
                    on_all_success_paths)
 
 CRATES = ["astria_sequencer_relayer.lib"]
@@ -116,8 +116,7 @@ def s2(prog, rep):
                       f"the record written ({r[:80]}) is not built from the token's own values",
                       c.where())
     body = prog.main_body(SUB + "PreparedSubmission::construct_and_write")
-    gt = [c for c in comparisons(body) if c.op == "Gt" and c.a == "sequencer_height"
-          and c.b == "last_submission.sequencer_height"]
+    gt = rel(body, "Gt", r"^sequencer_height$", r"^last_submission\.sequencer_height$")
     w = body.calls_to(SUB + "State::write")
     rep.check(bool(gt) and bool(w) and body.must_pass_edges(set(gt[0].true_edges), w[0].bb), "S2",
               "prepared:height>last-confirmed",
